@@ -423,21 +423,32 @@ Definition default_builtin (repo : string) : string :=
 Definition env_event (w : world) (repo : string) : event :=
   ["env"; e_cwd (w_env w); cwd_pipelines (w_env w); default_builtin repo; FILE_LOADER].
 
-Definition run_case (w : world) (repo : string) (loader pydir : option string)
+(** [pre]: sys.path entries present before pypyr runs (the harness appends them itself);
+    the observation lists only what pypyr added after them *)
+Definition state_pre (pre : list string) : state :=
+  {| s_sys := {| known := []; syspath := pre |}; s_cache := [] |}.
+
+Definition run_case_pre (w : world) (repo : string) (pre : list string) (loader pydir : option string)
            (name : string) : res (list event) :=
-  let '(st, ev, s) := run_pipeline FUEL w state0 loader pydir name PNone in
-  let tail := ["syspath" :: syspath (s_sys st); env_event w repo] in
+  let '(st, ev, s) := run_pipeline FUEL w (state_pre pre) loader pydir name PNone in
+  let tail := ["syspath" :: skipn (length pre) (syspath (s_sys st)); env_event w repo] in
   match s with
   | SUnsup => Unsup
   | SDone => Ok (ev ++ ["ok"] :: tail)%list
   | SRaised n m => Ok (ev ++ ["err"; n; m] :: tail)%list
   end.
 
+Definition run_case (w : world) (repo : string) (loader pydir : option string)
+           (name : string) : res (list event) := run_case_pre w repo [] loader pydir name.
+
 Definition obs_eqb : list event -> list event -> bool := list_eqb (list_eqb String.eqb).
 
-Definition check_case (w : world) (repo : string) (loader pydir : option string)
+Definition check_case_pre (w : world) (repo : string) (pre : list string) (loader pydir : option string)
            (name : string) (obs : list event) : nat :=
-  verdict obs_eqb (run_case w repo loader pydir name) (Ok obs).
+  verdict obs_eqb (run_case_pre w repo pre loader pydir name) (Ok obs).
+
+Definition check_case (w : world) (repo : string) (loader pydir : option string)
+           (name : string) (obs : list event) : nat := check_case_pre w repo [] loader pydir name obs.
 
 Definition mkopts l r p d : pype_opts :=
   {| o_loader := l; o_resolve := r; o_parent := p; o_pydir := d |}.
